@@ -171,7 +171,7 @@ func c19RateProperty(t *rapid.T, st *Stats) {
 		fuzzy bool // the last decision fell exactly on the window boundary
 	}
 	wins := map[string]*win{}
-	addrs := []string{"10.0.0.1", "10.0.0.2", "192.168.1.9", "::1"}
+	addrs := []string{"10.0.0.1", "10.0.0.2", "10.0.0.12", "192.168.1.9", "::1", "::2", "2001:db8::a", "2001:db8::b", "::ffff:10.0.0.1"}
 	trace := []string{fmt.Sprintf("RateLimit=%d", limit)}
 	fail := func(key, f string, a ...any) { Fail(t, st, key, fmt.Sprintf(f, a...), trace, nil) }
 	used := map[string]bool{}
